@@ -29,3 +29,129 @@ def patch_dict(obj: "map", diff: "Seq[ME]") -> "map":
                                             else diff[entry_for(diff, s)].value))
                       for s in STR))
         invariant(all(implies(s in newobj and entry_for(diff, s) < 0, newobj[s] == obj[s]) for s in STR))
+
+
+# ------------------------------------------------------------------ mapping diff entries and builder
+
+fields("nbdime.diff_format.MappingDiffBuilder", _diff="emap")
+
+
+@contract("nbdime.diff_format.op_add", properties=["C02", "C11"])
+def op_add(key: "str", value: "V") -> "ME":
+    ensures(result.op == "add" and result.key == key and result.value == value)
+    ensures(has_value(result) and not has_valuelist(result) and not has_length(result) and not has_diff(result))
+
+
+@contract("nbdime.diff_format.op_remove", properties=["C02", "C11"])
+def op_remove(key: "str") -> "ME":
+    ensures(result.op == "remove" and result.key == key)
+    ensures(not has_value(result) and not has_valuelist(result) and not has_length(result) and not has_diff(result))
+
+
+@contract("nbdime.diff_format.op_replace", properties=["C02", "C11"])
+def op_replace(key: "str", value: "V") -> "ME":
+    ensures(result.op == "replace" and result.key == key and result.value == value)
+    ensures(has_value(result) and not has_valuelist(result) and not has_length(result) and not has_diff(result))
+
+
+# the same real function as Kit L's op_patch, verified a second time for string keys
+@contract("nbdime.diff_format.op_patch#str", properties=["C02", "C11"])
+def op_patch_str(key: "str", diff: "Seq[E]") -> "ME":
+    ensures(result.op == "patch" and result.key == key and result.diff == diff)
+    ensures(has_diff(result) and not has_valuelist(result) and not has_length(result) and not has_value(result))
+
+
+@contract("nbdime.diff_format.MappingDiffBuilder.__init__", properties=["C02", "C11"])
+def __init__(self: "obj:nbdime.diff_format.MappingDiffBuilder"):
+    modifies(self._diff)
+    ensures(all(not (s in self._diff) for s in STR))
+
+
+@contract("nbdime.diff_format.MappingDiffBuilder.append", properties=["C02", "C11"])
+def append(self: "obj:nbdime.diff_format.MappingDiffBuilder", entry: "ME"):
+    requires(entry.op == "add" or entry.op == "remove" or entry.op == "replace" or entry.op == "patch")
+    requires(not (entry.key in self._diff))
+    modifies(self._diff)
+    ensures(self._diff == em_put(old(self._diff), entry.key, entry))
+
+
+@inline("nbdime.diff_format.MappingDiffBuilder.add")
+def add(self: "obj:nbdime.diff_format.MappingDiffBuilder", key: "str", value: "V"):
+    pass
+
+
+@inline("nbdime.diff_format.MappingDiffBuilder.remove")
+def remove(self: "obj:nbdime.diff_format.MappingDiffBuilder", key: "str"):
+    pass
+
+
+@inline("nbdime.diff_format.MappingDiffBuilder.replace")
+def replace(self: "obj:nbdime.diff_format.MappingDiffBuilder", key: "str", value: "V"):
+    pass
+
+
+@inline("nbdime.diff_format.MappingDiffBuilder.patch")
+def patch(self: "obj:nbdime.diff_format.MappingDiffBuilder", key: "str", diff: "Seq[E]"):
+    pass
+
+
+@contract("nbdime.diff_format.MappingDiffBuilder.validated", properties=["C02", "C11"])
+def validated(self: "obj:nbdime.diff_format.MappingDiffBuilder") -> "Seq[ME]":
+    # class invariant established by append's callers: every entry is filed under its own key
+    requires(keyed(self._diff))
+    ensures(all(result[i].key in self._diff and result[i] == self._diff[result[i].key] for i in range(len(result))))
+    ensures(all(result[i].key != result[j].key for i in range(len(result)) for j in range(i + 1, len(result))))
+    finally_check(all(implies(s in self._diff, result[key_pos(ekeys_of(self._diff), s)] == self._diff[s]) for s in STR))
+    ensures(all(implies(0 <= entry_for(result, s), s in self._diff) for s in STR))
+    ensures(all(implies(s in self._diff, 0 <= entry_for(result, s)) for s in STR))
+    ensures(all(implies(s in self._diff, result[entry_for(result, s)] == self._diff[s]) for s in STR))
+
+
+# ------------------------------------------------------------------ diff_dicts
+
+@contract("nbdime.diffing.generic.diff_dicts", properties=["C02", "C11", "C01"])
+def diff_dicts(a: "map", b: "map", path: "path", config: "cfg") -> "Seq[ME]":
+    # table contract: every registered differ patches x into y (as for diff_lists)
+    requires(differs_ok())
+    # no sequence predicates are registered for a dict path (otherwise the function raises RuntimeError by design)
+    requires(not has_preds(path_norm(path)))
+    # values compared with python `!=` (different types, or atomic): python equality is exact on them.  This is the clause
+    # True == 1 == 1.0 violates -- see known_findings.json (C02-pyeq)
+    requires(all(implies(s in a and s in b and pyeq(a[s], b[s]) and
+                         not (same_type(a[s], b[s]) and not is_atomic(a[s], path_key(path, s))), a[s] == b[s]) for s in STR))
+    ensures(wf_map(result, a))
+    ensures(apply_map(a, result) == b)
+    with loop(1, index="k1"):
+        invariant(akeys == keys_of(a) and bkeys == keys_of(b))
+        invariant(all(implies(s in di._diff, s in a and not (s in b) and key_pos(kdiff(akeys, bkeys), s) < k1) for s in STR))
+        invariant(all(implies(s in a and not (s in b) and key_pos(kdiff(akeys, bkeys), s) < k1, s in di._diff) for s in STR))
+        invariant(all(implies(s in di._diff, di._diff[s].key == s and di._diff[s].op == "remove") for s in STR))
+    with loop(2, index="k2"):
+        invariant(akeys == keys_of(a) and bkeys == keys_of(b))
+        invariant(all(implies(s in a and not (s in b), s in di._diff) for s in STR))
+        invariant(all(implies(s in di._diff, (s in a and not (s in b)) or
+                                             (s in a and s in b and key_pos(kinter(akeys, bkeys), s) < k2)) for s in STR))
+        invariant(all(implies(s in a and s in b and key_pos(kinter(akeys, bkeys), s) < k2 and not (s in di._diff), a[s] == b[s])
+                      for s in STR))
+        invariant(all(implies(s in di._diff, di._diff[s].key == s) for s in STR))
+        invariant(all(implies(s in di._diff and not (s in b), di._diff[s].op == "remove") for s in STR))
+        invariant(all(implies(s in di._diff and s in b,
+                              (di._diff[s].op == "patch" and has_diff(di._diff[s]) and len(di._diff[s].diff) >= 1 and
+                               apply_v(a[s], di._diff[s].diff) == b[s]) or
+                              (di._diff[s].op == "replace" and has_value(di._diff[s]) and di._diff[s].value == b[s]))
+                      for s in STR))
+    with loop(3, index="k3"):
+        invariant(akeys == keys_of(a) and bkeys == keys_of(b))
+        invariant(all(implies(s in a and not (s in b), s in di._diff) for s in STR))
+        invariant(all(implies(s in a and s in b and not (s in di._diff), a[s] == b[s]) for s in STR))
+        invariant(all(implies(s in b and not (s in a) and key_pos(kdiff(bkeys, akeys), s) < k3, s in di._diff) for s in STR))
+        invariant(all(implies(s in di._diff, s in a or (s in b and key_pos(kdiff(bkeys, akeys), s) < k3)) for s in STR))
+        invariant(all(implies(s in di._diff, di._diff[s].key == s) for s in STR))
+        invariant(all(implies(s in di._diff and not (s in b), di._diff[s].op == "remove") for s in STR))
+        invariant(all(implies(s in di._diff and s in b and s in a,
+                              (di._diff[s].op == "patch" and has_diff(di._diff[s]) and len(di._diff[s].diff) >= 1 and
+                               apply_v(a[s], di._diff[s].diff) == b[s]) or
+                              (di._diff[s].op == "replace" and has_value(di._diff[s]) and di._diff[s].value == b[s]))
+                      for s in STR))
+        invariant(all(implies(s in di._diff and not (s in a),
+                              di._diff[s].op == "add" and has_value(di._diff[s]) and di._diff[s].value == b[s]) for s in STR))
